@@ -610,8 +610,8 @@ def c16_11(ctx):
 
 def c16_12(ctx):
     """MEMO: a derived branch / leaf key is not remembered under a key that does not determine it (fingerprint instead of xpub)"""
-    from sa.memo import memo_obligation
-    return memo_obligation(ctx, ["descriptor"], "two key records that share a master fingerprint would get each other's branch key, and the address is no longer the "
+    from sa.memo import cache_obligation
+    return cache_obligation(ctx, ["descriptor", "hd", "script"], "two key records that share a master fingerprint would get each other's branch key, and the address is no longer the "
                                                  "script over each cosigner's own child key")
 
 
@@ -621,7 +621,23 @@ def c16_9(ctx):
     return c08_5(ctx)
 
 
+def c16_13(ctx):
+    """SET-ORDER: no ordered result (list, serialisation, yielded sequence) of the modules this property is anchored in takes its
+    order from the iteration order of a set"""
+    from sa.setorder import setorder_obligation
+    return setorder_obligation(ctx, ["descriptor", "hd", "script"], "the same inputs give different output from run to run")
+
+
+def c16_14(ctx):
+    """SHARED necessary conditions over the modules this property is anchored in: FALSY-DEFAULT, MUTABLE-DEFAULT, IDENTITY, ALIAS,
+    CTOR-FORWARD (sa/shared.py)"""
+    from sa.shared import shared_obligations
+    return shared_obligations(ctx, ["descriptor", "hd", "script"], "the result would depend on something other than the arguments and the object's current state")
+
+
 OBLIGATIONS = [
+    ("C16.14", "SHARED", c16_14),
+    ("C16.13", "SET-ORDER", c16_13),
     ("C16.1", "TABLE", c16_1),
     ("C16.2", "GUARD", c16_2),
     ("C16.3", "REGEX AST", c16_3),
